@@ -209,7 +209,9 @@ def value_is_error(body, local, depth=8):
 
 def single_writer(rep, prog, cfg, res):
     rule = "C01.single-writer"
-    allowed = {fn_name(prog, f) for f in res["fns"]} | {"mpd_client::client::do_connect"}
+    # the handshake: the function that spawns the loop (found by the spawn)
+    spawners = {fn_name(prog, x) for x in prog.bodies.values() if x.crate == "mpd_client" and any("tokio::task::spawn::spawn" in callee_names(t) for _, t in x.calls())}
+    allowed = {fn_name(prog, f) for f in res["fns"]} | spawners
     users = set()
     for b in prog.bodies.values():
         if b.crate != "mpd_client":
